@@ -16,6 +16,7 @@
 //   4 dump.hpp text of the original      5 dump.hpp text of the clone
 //   with a mutation script additionally:
 //   6,7 identity dumps after the mutation   8,9 dump.hpp texts after the mutation   10 exec results joined by ','
+//   11 e<equals(o,c)><equals(c,o)> after the mutation
 // A crash / exception / hang anywhere gives the single token CRASH(sig) / THROW(type) / TIMEOUT (forkrun.hpp).
 #include <algorithm>
 #include <cstdio>
@@ -364,6 +365,7 @@ static std::string runCase(const std::string &line)
             res += (res.empty() ? "" : ",") + in.exec(cmd);
         }
         out += "\t" + idump(in, orig, false) + "\t" + idump(in, cl, false) + "\t" + plainDump(orig, gConn) + "\t" + plainDump(cl, gConn) + "\t" + res;
+        out += std::string("\te") + (orig->equals(cl) ? "1" : "0") + (cl->equals(orig) ? "1" : "0");
     }
     return out;
 }
